@@ -53,10 +53,11 @@ def make_cases(ctx, cid, en, mode=None, flags=None):
         files0, steps, edit = hist
         runs, rerun = [run] + steps + [run], True
     gx = [enumgen.generated_sexp(en, decl)] if rerun else []
+    hops = enumgen.history(ctx.rng, en, decl, codec=codec, bit=True)
     main = {"id": cid, "en": en, "decl": decl, "files": files0, "codec": codec, "edit": edit, "verbose": lay["verbose"], "mode": lay["mode"] + ("+spread" if lay["spread"] and lay["mode"].startswith("file") else ""),
             "runs": runs, "rerun": rerun,
-            "oracle": {".": enumgen.oracle_c14(en, decl, hi, negs, codec)},
-            "sexp": enumgen.case_sexp(cid, "c14", en, gx + [["flags"] + codec, ["hi", str(hi)], ["neg"] + [str(v) for v in negs]]), "cmd": "shoot " + " ".join(run["args"]) + (" ; edit(%s) ; again" % edit if hist else ""),
+            "oracle": {".": enumgen.oracle_c14(en, decl, hi, negs, codec, hops)}, "hist": hops,
+            "sexp": enumgen.case_sexp(cid, "c14", en, gx + [["flags"] + codec, ["hi", str(hi)], ["neg"] + [str(v) for v in negs], enumgen.history_sexp(hops)]), "cmd": "shoot " + " ".join(run["args"]) + (" ; edit(%s) ; again" % edit if hist else ""),
             "hi": hi, "kind": "main"}
     raw = {"id": cid + "r", "en": en, "decl": decl, "sexp": enumgen.case_sexp(cid + "r", "c14raw", en, gx),
            "cmd": "shoot enum -bit -type=%s && go build" % T, "kind": "raw"}
